@@ -236,6 +236,7 @@ func main() {
 	out.WriteString("namespace Pike.Facts\n")
 
 	factsProxy()
+	factsKey()
 	factsCache()
 	factsDispatcher()
 	factsResponse()
@@ -336,10 +337,163 @@ func headerName(e ast.Expr) string {
 }
 
 func factsCache()      {}
-func factsDispatcher() {}
 func factsResponse()   {}
 func factsLocation()   {}
 func factsCompress()   {}
 func factsServer()     {}
 func factsMain()       {}
 func factsLocks()      {}
+
+// ---------------------------------------------------------------- cache/dispatcher.go
+func factsDispatcher() {
+	section("cache/dispatcher.go")
+	f := parse("cache/dispatcher.go")
+	names := map[string]string{"option.Size": "optionSize"}
+	if v, ok := constInt(f, "defaultZoneSize"); ok {
+		names["defaultZoneSize"] = fmt.Sprint(v)
+	}
+	fd := funcDecl(f, "", "NewDispatcher")
+	if fd == nil {
+		out.WriteString("def dispatcherSizes_shape : String := \"unknownShape:NewDispatcher\"\ndef dispatcherSizes (optionSize : Int) : Int × Int := default\n")
+		return
+	}
+	// the size computation ends where the shard list is allocated
+	stop := func(s ast.Stmt) bool {
+		as, ok := s.(*ast.AssignStmt)
+		return ok && len(as.Rhs) == 1 && strings.HasPrefix(nsrc(as.Rhs[0]), "make(")
+	}
+	// which variables size the list and each LRU
+	zonesVar, capVar := "", ""
+	ast.Inspect(fd.Body, func(n ast.Node) bool {
+		call, ok := n.(*ast.CallExpr)
+		if !ok {
+			return true
+		}
+		fn := nsrc(call.Fun)
+		if fn == "make" && len(call.Args) == 2 && nsrc(call.Args[0]) == "[]*httpLRUCache" {
+			zonesVar = nsrc(call.Args[1])
+		}
+		if fn == "newHTTPLRUCache" && len(call.Args) == 1 {
+			capVar = nsrc(call.Args[0])
+		}
+		return true
+	})
+	if zonesVar == "" || capVar == "" {
+		out.WriteString("def dispatcherSizes_shape : String := \"unknownShape:NewDispatcher list/cap\"\ndef dispatcherSizes (optionSize : Int) : Int × Int := default\n")
+		return
+	}
+	out.WriteString(transFunc("dispatcherSizes", "(optionSize : Int)", names, fd.Body.List, stop, "Int × Int", "("+zonesVar+", "+capVar+")"))
+}
+
+// ---------------------------------------------------------------- server/cache.go getKey
+func factsKey() {
+	section("server/cache.go")
+	f := parse("server/cache.go")
+	layout := []string{}
+	shape := "ok"
+	extra := -1
+	fresh := false
+	fd := funcDecl(f, "", "getKey")
+	if fd == nil {
+		shape = "unknownShape:getKey"
+	} else {
+		lens := map[string]string{} // methodLen -> method
+		segOf := map[string]string{"req.Method": "method", "req.Host": "host", "uri": "uri"}
+		pending := "" // what `len` must be advanced by next
+		for _, st := range fd.Body.List {
+			n := nsrc(st)
+			switch {
+			case strings.HasPrefix(n, "methodLen:=len(req.Method)"):
+				lens["methodLen"] = "method"
+			case strings.HasPrefix(n, "hostLen:=len(req.Host)"):
+				lens["hostLen"] = "host"
+			case n == "uriLen:=len(uri)":
+				lens["uriLen"] = "uri"
+			case n == "uri:=req.RequestURI", strings.HasPrefix(n, "iflen(uri)==0{uri=req.URL.String()"):
+			case strings.HasPrefix(n, "buffer:=make([]byte,"):
+				e := strings.TrimSuffix(strings.TrimPrefix(n, "buffer:=make([]byte,"), ")")
+				terms := strings.Split(e, "+")
+				sort.Strings(terms)
+				if len(terms) == 4 && terms[1] == "hostLen" && terms[2] == "methodLen" && terms[3] == "uriLen" {
+					if v, err := strconv.Atoi(terms[0]); err == nil {
+						extra = v
+					}
+				}
+				fresh = true
+			case n == "len:=0":
+			case strings.HasPrefix(n, "copy(buffer[len:],"):
+				if pending != "" {
+					shape = "unknownShape:getKey offset not advanced before " + n
+				}
+				x := strings.TrimSuffix(strings.TrimPrefix(n, "copy(buffer[len:],"), ")")
+				if sg, ok := segOf[x]; ok {
+					layout = append(layout, sg)
+					pending = sg
+				} else {
+					shape = "unknownShape:getKey copy " + x
+				}
+			case n == "buffer[len]=spaceByte":
+				if pending != "" {
+					shape = "unknownShape:getKey offset not advanced before " + n
+				}
+				layout = append(layout, "sp")
+				pending = "sp"
+			case n == "len++":
+				if pending != "sp" {
+					shape = "unknownShape:getKey len++ after " + pending
+				}
+				pending = ""
+			case strings.HasPrefix(n, "len+="):
+				v := strings.TrimPrefix(n, "len+=")
+				if lens[v] == "" || lens[v] != pending {
+					shape = "unknownShape:getKey " + n + " after " + pending
+				}
+				pending = ""
+			case n == "returnbuffer":
+			default:
+				shape = "unknownShape:getKey statement " + n
+			}
+		}
+		if len(layout) > 0 && pending != layout[len(layout)-1] {
+			shape = "unknownShape:getKey trailing"
+		}
+	}
+	sp := "unknownShape:spaceByte"
+	if f != nil {
+		for _, d := range f.Decls {
+			gd, ok := d.(*ast.GenDecl)
+			if !ok || gd.Tok != token.CONST {
+				continue
+			}
+			for _, spc := range gd.Specs {
+				vs := spc.(*ast.ValueSpec)
+				for i, nm := range vs.Names {
+					if nm.Name == "spaceByte" && i < len(vs.Values) && strings.TrimSpace(src(vs.Values[i])) == "byte(' ')" {
+						sp = " "
+					}
+				}
+			}
+		}
+	}
+	defStr("keyShape", shape)
+	defStrList("keyLayout", layout)
+	defInt("keyExtraLen", extra)
+	defStr("keySeparator", sp)
+	defBool("keyFreshBuffer", fresh)
+	// requestIsPass: the methods that are NOT passed
+	var cached []string
+	if fd := funcDecl(f, "", "requestIsPass"); fd != nil && len(fd.Body.List) == 1 {
+		n := nsrc(fd.Body.List[0])
+		for _, part := range strings.Split(strings.TrimPrefix(n, "return"), "&&") {
+			switch part {
+			case "req.Method!=http.MethodGet":
+				cached = append(cached, "GET")
+			case "req.Method!=http.MethodHead":
+				cached = append(cached, "HEAD")
+			default:
+				cached = append(cached, "unknownShape:"+part)
+			}
+		}
+	}
+	defStrList("cachedMethods", cached)
+}
